@@ -94,13 +94,13 @@ func c01dNodeObs(reqs []c01dDeclReq) ([]string, error) {
 // ---------- cases ----------
 
 type c01dCase struct {
-	src                               string
-	enc                               string // encoding of the input with annotations ("" = outside the Lean fragment / syntax error)
-	perr, uerr                        error
-	realK, realR                      string // real outputs with KeepVarNames / with renaming
-	errK, errR                        error
-	known                             string // id of the known finding whose trigger the input satisfies ("-" = none)
-	trigDone, trigForeign, trigForLet bool
+	src                                             string
+	enc                                             string // encoding of the input with annotations ("" = outside the Lean fragment / syntax error)
+	perr, uerr                                      error
+	realK, realR                                    string // real outputs with KeepVarNames / with renaming
+	errK, errR                                      error
+	known                                           string // id of the known finding whose trigger the input satisfies ("-" = none)
+	trigDone, trigForeign, trigForLet, trigDangling bool
 }
 
 var c01dScripts = [][]string{{"v1", "v2", "u", "v0"}, {"v3", "t7", "v1", "u", "v2"}}
@@ -432,7 +432,15 @@ func c01dStageNode(c *Ctx, name string, cases []*c01dCase, rule string) error {
 			st.Tag("known-" + id)
 			continue
 		}
-		if cs.known == "-" && cs.enc == "" && strings.Contains(r.OA, `"completion":{"type":"throw","value":{"$error":"ReferenceError"}}`) &&
+		if cs.known == "-" && !c01dFactWhile && m.cfg == "KeepVarNames" && strings.Contains(cs.src, "while(") &&
+			strings.Contains(r.Why, "has already been declared") {
+			// outside the Lean fragment there is no Lean-side guard for K-C01D-1: names kept, a while loop in the
+			// input, and the output redeclares a let / const name
+			c.R.ExcludedKnown++
+			st.Tag("known-K-C01D-1 (signature: while + redeclaration in the output)")
+			continue
+		}
+		if cs.known == "-" && strings.Contains(r.OA, `"completion":{"type":"throw","value":{"$error":"ReferenceError"}}`) &&
 			(strings.HasPrefix(r.Why, "completion:") || strings.Contains(r.Why, "extra in output")) {
 			// programs outside the Lean fragment have no Lean-side guard: the signature of K-C01-3 (C01) is a
 			// ReferenceError of the input that the output does not raise (a dropped `pure` expression), the traces
@@ -452,7 +460,7 @@ func c01dKnownTrigger(cs *c01dCase, cfg string) string {
 		return cs.known
 	}
 	if !cs.trigDone {
-		cs.trigForeign, cs.trigForLet = c01dAstTriggers(cs.src)
+		cs.trigForeign, cs.trigForLet, cs.trigDangling = c01dAstTriggers(cs.src)
 		cs.trigDone = true
 	}
 	if cs.trigForeign && !c01dFactOwnFunction {
@@ -470,6 +478,9 @@ func c01dKnownTrigger(cs *c01dCase, cfg string) string {
 	if cfg == "renaming" && cs.trigForLet {
 		return "K-C01D-5"
 	}
+	if cs.trigDangling && !c01dFactLoops {
+		return "K-C01D-6"
+	}
 	return ""
 }
 
@@ -477,16 +488,21 @@ func c01dKnownTrigger(cs *c01dCase, cfg string) string {
 // source by the translator; when true K-C01D-4 cannot occur and its trigger is off)
 var c01dFactOwnFunction bool
 
+// c01dFactLoops: endsInIf optimizes loop bodies first (K-C01D-6 cannot occur); c01dFactWhile: isShadowed knows while
+var c01dFactLoops, c01dFactWhile bool
+
 func c01dLoadFacts() error {
 	rep, err := h.Eval([]string{"model.c01d.facts"})
 	if err != nil {
 		return err
 	}
 	b, ok, msg := h.DecodeReply(rep[0])
-	if !ok || len(b) != 3 {
+	if !ok || len(b) != 4 {
 		return fmt.Errorf("model.c01d.facts: %s %q", msg, b)
 	}
 	c01dFactOwnFunction = b[0] == '1'
+	c01dFactWhile = b[1] == '1'
+	c01dFactLoops = b[3] == '1'
 	return nil
 }
 
